@@ -231,7 +231,7 @@ def _test_journal(world, j, target, baseline):
 def write_replay(world, seed, tier, hashseed, item, baseline, do_shrink=True):
     journal = item['journal']
     target = item['violations'][0]
-    rdir = os.path.join(core.VERIF_DIR, 'replays')
+    rdir = os.environ.get('VERIF_REPLAY_DIR') or os.path.join(core.VERIF_DIR, 'replays')
     os.makedirs(rdir, exist_ok=True)
     base = '%s-s%d-h%s-i%d' % (world.PROP, seed, hashseed, item['idx'])
     full_path = os.path.join(rdir, base + '.full.json')
